@@ -50,7 +50,11 @@ fn has_adjacent_text(s: &[char]) -> bool {
 #[derive(Clone, Debug)]
 pub struct StartState {
     pub trees: Vec<ANode>,
+    /// consolidation while the start state is built
     pub consolidation: bool,
+    /// consolidation while the call under test runs (differs from `consolidation` for the states
+    /// "built with adjacent text nodes, then switched on")
+    pub call_consolidation: bool,
 }
 
 fn leaf(c: char, i: usize) -> ANode {
@@ -66,8 +70,12 @@ pub fn catalogue() -> Vec<StartState> {
     let outer = seqs(&['T', 'E', 'C'], 3);
     let inner = seqs(&['T', 'E', 'C'], 2);
     let mut out = Vec::new();
-    for consolidation in [true, false] {
+    for (consolidation, call_consolidation) in [(true, true), (false, false), (false, true)] {
         for o in &outer {
+            // the mixed mode is only interesting when adjacent text nodes exist
+            if !consolidation && call_consolidation && !has_adjacent_text(o) {
+                continue;
+            }
             if consolidation && has_adjacent_text(o) {
                 continue;
             }
@@ -100,6 +108,7 @@ pub fn catalogue() -> Vec<StartState> {
                         out.push(StartState {
                             trees: vec![t1, t2],
                             consolidation,
+                            call_consolidation,
                         });
                     }
                 }
@@ -116,6 +125,10 @@ fn build_state(st: &StartState, with_model: bool) -> Result<Forest, String> {
     f.consolidation_ever_off = !st.consolidation;
     for t in &st.trees {
         f.add_tree(t, Route::TopDown, AttrStyle::Map)?;
+    }
+    if st.call_consolidation != st.consolidation {
+        f.xot.set_text_consolidation(st.call_consolidation);
+        f.model.consolidation = st.call_consolidation;
     }
     Ok(f)
 }
@@ -502,7 +515,7 @@ impl Manip {
         };
         let gen = OpGen {
             legal_only: self.0 == Which::C05,
-            allow_consolidation_toggle: self.0 == Which::C04,
+            allow_consolidation_toggle: self.0 != Which::C05,
             allow_unmodelled: self.0 != Which::C05,
         };
         let mut hist = Hist {
@@ -547,6 +560,11 @@ impl Manip {
     fn exhaustive_unit(&self, idx: u64, ctx: &mut Ctx) {
         let cat = catalogue();
         let st = &cat[idx as usize % cat.len()];
+        if self.0 == Which::C05 && st.call_consolidation != st.consolidation {
+            // "become adjacent" is only defined where pre-existing adjacency cannot occur (DESIGN §5 C05)
+            ctx.count("exhaustive.mixed_consolidation_states_skipped");
+            return;
+        }
         let probe = match build_state(st, false) {
             Ok(f) => f,
             Err(_) => return,
